@@ -506,6 +506,15 @@ func (st *State) callNative(th *Thread, fr *Frame, f FuncV, args []Value) (Value
 		return o.F[1], stNext
 	case f.Native == "invoke:Timeout", f.Native == "invoke:Temporary":
 		return st.tt.False, stNext
+	case f.Native == "noop":
+		res, _ := f.Data.(*types.Tuple)
+		switch {
+		case res == nil || res.Len() == 0:
+			return nil, stNext
+		case res.Len() == 1:
+			return st.zero(res.At(0).Type()), stNext
+		}
+		return st.zero(res), stNext
 	case f.Native == "pool.GetBuf":
 		return st.poolGet(args[0].(*Term)), stNext
 	case f.Native == "pool.ReleaseBuf":
@@ -584,6 +593,9 @@ func init() {
 			st.assume(st.tt.Implies(st.strEq(s, p.s), st.tt.Eq(r, p.r)))
 		}
 		st.kv["maphash"] = append(prev, rec{s, r})
+		// shard symmetry: the 64 shards of concurrent_map are identical, only "same shard or not" matters
+		st.noteAssumption("hash sums of symbolic keys are restricted to two shard residues (sum mod 64 in {0,1}); the shards are symmetric")
+		st.assume(st.tt.Cmp(OpULt, st.tt.Bin(OpBAnd, r, st.tt.Const(63, 64)), st.tt.Const(2, 64)))
 		return r
 	}))
 	reg("hash/maphash.MakeSeed", simple(func(st *State, a []Value) Value { return st.zero(a0type("hash/maphash.Seed")) }))
